@@ -5,7 +5,7 @@
    transactions name each other (or themselves) in Conflicts; a transaction has no duplicate Conflicts
    attribute; SystemFee + NetworkFee < 2^64; balances < 2^255; the Feer's answers change only at
    RemoveStale ([OStale] carries the new ones). *)
-From NG Require Import Common.Tactics Mempool.Model Mempool.Spec Mempool.AddMain Mempool.Main Mempool.Equiv Mempool.Legacy Mempool.Examples.
+From NG Require Import Common.Tactics Mempool.Model Mempool.Spec Mempool.AddMain Mempool.Main Mempool.Equiv Mempool.Resend Mempool.Legacy Mempool.Examples.
 Open Scope N_scope.
 
 (* after every sequence of Add / Remove / Verify / RemoveStale the invariant holds *)
@@ -64,6 +64,28 @@ Theorem C08_step_respects_eqv : forall U, good_universe U -> forall bal a b o,
 Proof. exact step_respects_eqv. Qed.
 Print Assumptions C08_step_respects_eqv.
 
+(* resending (SetResendThreshold): RemoveStale's loop with block heights, per-item stamps and the resend decision
+   produces the same pool as the plain loop, whatever is or is not resent ... *)
+Theorem C08_resend_changes_nothing : forall bal newfpb isok height thr stamps s,
+  fst (remove_stale_rs bal newfpb isok height thr stamps s) = remove_stale bal newfpb isok s.
+Proof. exact remove_stale_rs_pool. Qed.
+Print Assumptions C08_resend_changes_nothing.
+
+(* ... so the invariant holds after every sequence of operations at any heights with any thresholds ... *)
+Theorem C08_resend_preserves_inv : forall U, good_universe U -> forall capacity bal0 ops,
+  bal_ok bal0 -> Forall (fun ro => Forall (op_ok U) (plain ro)) ops ->
+  let rs := rrun fixed_cfg (mkR (mkState (new_pool capacity) bal0) [] 0) ops in
+  Inv U (st_bal (r_st rs)) (st_pool (r_st rs)).
+Proof. exact resend_preserves_inv. Qed.
+Print Assumptions C08_resend_preserves_inv.
+
+(* ... and what is handed to the resend callback is exactly the kept items whose age is threshold * 2^k, in pool order *)
+Theorem C08_resent_exact : forall bal newfpb isok height thr stamps s,
+  snd (remove_stale_rs bal newfpb isok height thr stamps s)
+  = filter (due height thr stamps) (vtxs (fst (remove_stale_rs bal newfpb isok height thr stamps s))).
+Proof. exact resent_exact. Qed.
+Print Assumptions C08_resent_exact.
+
 (* Add always answers (ok or one of its error classes) and keeps the invariant *)
 Theorem C08_add_total : forall U, good_universe U -> forall bal s t,
   bal_ok bal -> Inv U bal s -> U t ->
@@ -87,6 +109,12 @@ Theorem C08_F5_refuted :
   /\ sum_fees (notary, 5) (vtxs (st_pool st)) = 19 /\ st_bal st (notary, 5) = 12.
 Proof. exact f5_refuted. Qed.
 Print Assumptions C08_F5_refuted.
+
+Example C08_example_resend :
+  map (resend_due 3) [0; 3; 6; 9; 12; 24; 5] = [false; true; true; false; true; true; false]
+  /\ (let '(p, resent) := remove_stale_rs ex_bal 0 (fun _ => true) 7 3 [(0, 1); (3, 4); (4, 5)] (st_pool ex_state_full) in
+      map tid (vtxs p) = [0; 3; 4] /\ map tid resent = [0; 3]).
+Proof. vm_compute. repeat split; reflexivity. Qed.
 
 (* non-vacuity: a concrete universe, balances and history satisfying every hypothesis above *)
 Example C08_example_universe : good_universe ex_U /\ bal_ok ex_bal /\ Forall (op_ok ex_U) ex_ops.
